@@ -167,7 +167,11 @@ def sample_prefix(rng, cfg, max_len=4, p_any=0.35, allow_path=True, allow_mutate
         if k == "set_params":
             op["change"] = sample_param_change(rng, cfg)
         if k == "bad_fit":
-            op["bad"] = choice(rng, [["n_clusters", 0], ["learning_rate", -1.0], ["max_iter", 0]])
+            bads = [["n_clusters", 0], ["learning_rate", -1.0], ["max_iter", 0]]
+            if fam.get("sparse"):
+                # rejected later than the generic parameter validation: by the validation of the group structure
+                bads += [["groups", [[0, 0]]], ["groups", [[cfg["d"] + 2]]], ["groups", [[0], [0]]]]
+            op["bad"] = choice(rng, bads)
         if k == "mutate_data":
             op["how"] = choice(rng, ["scale", "shift", "reverse_rows"])
         ops.append(op)
